@@ -42,6 +42,8 @@ class Engine:
         self.last = None  # (t, source instance) of the last delivered source event
         self.timers = 0
         self.hot_armed = set()
+        self.feedback = None  # {"sid": hot source, "at": {str(index of an output element): value}}: the consumer pushes value into the source from inside its handler
+        self.n_out = 0
 
     # -- output
     def emit(self, k, v=None):
@@ -51,6 +53,18 @@ class Engine:
                 self.done = True
                 for s in self.subs:
                     s.cancel()
+            elif self.feedback is not None:
+                i = self.n_out
+                self.n_out += 1
+                fv = self.feedback["at"].get(str(i))
+                if fv is not None:
+                    # re-entrant emission: the element arrives now, nested inside the delivery of this output
+                    self.inject(self.feedback["sid"], "N", vt.dec(fv))
+
+    def inject(self, sid, k, v):
+        for s in list(self.subs):
+            if s.live and s.sid == sid:
+                self._deliver(s, k, v)
 
     # -- sources
     def subscribe(self, sid, handler):
@@ -303,7 +317,11 @@ def switch_model(eng, outer, pick):
                     if st["outer_done"]:
                         eng.emit("C")
 
-            st["cur"] = eng.subscribe(sid, ih)
+            sub = eng.subscribe(sid, ih)
+            if g != st["gen"]:
+                sub.cancel()  # superseded from inside its own subscribe() (a consumer fed the next inner back): let go on return
+            else:
+                st["cur"] = sub
         elif k == "E":
             eng.emit("E", v)
         else:
